@@ -27,18 +27,22 @@ example : getSequence (originLines c!"acgtACGTnnacgtacgtacgtaa" 3 2 ++ [c!"//", 
 
 /-! ## LOCUS -/
 
-/-- LOCUS name (any blank-free token), length (every number of digits), molecule type (DNA, mRNA,
-tRNA, rRNA), topology, division (all 18) and date are recovered for every choice of the six gaps. -/
-theorem locus_recovered (l : RLocus) (n : Nat) (ℓ : RecLayout) (h : wfLocus l = true) :
-    parseLocus (locusLine l n ℓ) = .ok (toLocus l n) :=
-  parseLocus_locusLine l n ℓ h
+/-- LOCUS name (any blank-free token), stated length (any number of digits, or none — then no length and no
+unit are reported), molecule type (each of the twelve, the longest match wins, or none), topology (or none),
+division (all 18, or none) and date (or none) are recovered for every choice of the gaps and of the trailing
+blanks. -/
+theorem locus_recovered (l : RLocus) (ℓ : RecLayout) (h : wfLocus l = true) :
+    parseLocus (locusLine l ℓ) = .ok (toLocus l) :=
+  parseLocus_locusLine l ℓ h
 
-example : wfLocus ⟨c!"puc19", .dna, .circular, 9, c!"22-OCT-2019"⟩ = true
-    ∧ wfLocus ⟨c!"linear", .mrna, .circular, 0, c!"01-JAN-1999"⟩ = true := by decide
+example : wfLocus { name := c!"puc19", len := c!"2686", mol := c!"DNA", topo := some .circular, division := c!"SYN", date := c!"22-OCT-2019" } = true
+    ∧ wfLocus { name := c!"linear", len := c!"20", mol := c!"genomic DNA", topo := some .circular } = true
+    ∧ wfLocus { name := c!"x" } = true := by decide
 
-/-- a two-digit length, a locus called `linear` with circular topology, single blanks -/
-example : parseLocus (locusLine ⟨c!"linear", .trna, .circular, 6, c!"01-JAN-2020"⟩ 20 {})
-    = .ok (toLocus ⟨c!"linear", .trna, .circular, 6, c!"01-JAN-2020"⟩ 20) := locus_recovered _ _ _ (by decide)
+/-- a two-digit length, a locus called `linear` with circular topology, a two-word molecule type, no division -/
+example : parseLocus (locusLine { name := c!"linear", len := c!"20", mol := c!"genomic DNA", topo := some .circular, date := c!"01-JAN-2020" } {})
+    = .ok (toLocus { name := c!"linear", len := c!"20", mol := c!"genomic DNA", topo := some .circular, date := c!"01-JAN-2020" }) :=
+  locus_recovered _ _ (by decide)
 
 /-! ## keyword blocks -/
 
@@ -159,7 +163,7 @@ wrapped definition, KEYWORDS left out, DBLINK before KEYWORDS, a reference whose
 word TITLE, a multi-line location without qualifier, an `order(…)` location with a value-less qualifier, a feature whose value
 continues with `/b`, a key with capitals and an unquoted value -/
 def exampleRec : GbRec :=
-  { locus := ⟨c!"linear", .dna, .circular, 6, c!"01-JAN-2020"⟩
+  { locus := { name := c!"linear", len := c!"12", mol := c!"DNA", topo := some .circular, division := c!"BCT", date := c!"01-JAN-2020" }
     definition := c!"a small test record", accession := c!"X1", version := c!"X1.1", keywords := []
     source := c!"synthetic construct", organism := c!"synthetic construct"
     refs := [{ range := c!"(bases 1 to 12)", authors := c!"A B", journal := c!"open SOURCE code", pubmed := c!"123" }]
